@@ -189,6 +189,16 @@ pub fn run(ctx: &Ctx) -> Rep {
     rep.merge(r6);
 
     let s7 = par_subsets::<7, X, _, _>(ctx, unit_stride, mk, |st, c, _| {
+        // every hand with six or more suited cards (274,560 hands, where straight-flush shortcuts live) in 8 seeded
+        // slot orders, whatever the sampling below decides
+        if drive::max_suit_count(c) >= 6 && !ctx.smoke() {
+            let mut rng = Rng::new(seed, drive::hand_code(c) ^ 0x9A9A);
+            for _ in 0..8 {
+                let p = permuted(c, &mut rng);
+                check7(st, &p);
+            }
+            st.rep.add("six_suited_hands_in_8_seeded_orders", 1);
+        }
         if !selected(c, seed, 0x97, rate7) {
             return;
         }
@@ -199,6 +209,16 @@ pub fn run(ctx: &Ctx) -> Rep {
             check7(st, &p);
         } else {
             check7(st, c);
+        }
+        // call-history probe: the seven-card value taken right after ranking a suit-swapped twin (same ranks,
+        // same suit histogram) must still be the minimum of its six-card values
+        if drive::max_suit_count(c) >= 5 && selected(c, seed, 0x99, 2) {
+            for t in drive::suit_swap_twins(c) {
+                let tw: [u8; 7] = t.try_into().unwrap();
+                let _ = Seven::from(words_of(&tw)).hand_rank_value();
+                check7(st, c);
+                st.rep.add("seven_card_values_taken_right_after_a_twin", 1);
+            }
         }
         if st.rep.want_sample() && st.rep.distinct % 3_000_017 == 1 {
             let w = words_of(c);
